@@ -21,7 +21,7 @@ EXTENDS TLC, Naturals, FiniteSets, Sequences, SequencesExt, Json, IOUtils
 CONSTANT DumpCases
 R == INSTANCE Req
 
-Progs == {"fn", "fn-async-bounds", "fn-byvalue", "mod", "concrete", "trait-self", "trait-self-async", "trait-ref", "trait-borrow", "di-static", "di-dyn-at", "di-dyn", "di-dyn-borrow"}
+Progs == {"fn", "fn-async-bounds", "fn-byvalue", "mod", "concrete", "trait-self", "trait-self-async", "trait-ref", "trait-borrow", "di-static", "di-dyn-at", "di-dyn", "di-dyn-borrow", "fn-chain"}
 ShadowNames == {"Impl", "core", "entrait", "Future", "Send", "Sync", "AsRef", "Borrow", "Sized", "Box", "Option", "Result", "std", "own-value", "EntraitT-value"}
 Ref(n, how) == [name |-> n, how |-> how]
 Common == { Ref("entrait", "abs"), Ref("Impl", "abs"), Ref("core", "abs"), Ref("Sync", "abs"), Ref("EntraitT", "own") }
@@ -31,7 +31,7 @@ Refs(p) == Common
   \cup (IF p \in {"trait-self", "trait-self-async", "trait-ref", "trait-borrow", "concrete"} THEN { Ref("as_ref", "method") } ELSE {})
   \cup (IF p = "trait-ref" THEN { Ref("AsRef", "abs") } ELSE {})
   \cup (IF p = "trait-borrow" THEN { Ref("Borrow", "abs"), Ref("borrow", "method") } ELSE {})
-  \cup (IF p \in {"di-static", "di-dyn-at", "di-dyn", "di-dyn-borrow"} THEN { Ref("__impl", "own"), Ref("T", "own") } ELSE {})
+  \cup (IF p \in {"di-static", "di-dyn-at", "di-dyn", "di-dyn-borrow", "fn-chain"} THEN { Ref("__impl", "own"), Ref("T", "own") } ELSE {})
   \cup (IF p = "di-dyn" THEN { Ref("AsRef", "abs") } ELSE {})
   \cup (IF p = "di-dyn-borrow" THEN { Ref("Borrow", "abs") } ELSE {})
   \cup (IF p = "di-dyn-at" THEN { Ref("AsRef", "abs"), Ref("Box", "thirdparty") } ELSE {})
